@@ -39,6 +39,7 @@ fn prefix_profile() -> Profile {
         keepalive: vec![0, 0, 2, 4, 30],
         w_advance: 2,
         w_pingresp: 1,
+        shrink_mps_pct: 30,
         max_qos: vec![None, None, Some(0), Some(1)],
         ..Profile::default()
     }
@@ -237,7 +238,10 @@ pub fn eval(case: &Case) -> Out {
         }
     }
     // differential twin: a brand-new session with the same configuration and the same CONNACK
-    let twin = run_case(&twin_of(case));
+    let mut twin_case = twin_of(case);
+    // the same CONNACK: a planned smaller Maximum Packet Size may have been withheld
+    twin_case.conns[0].connect.props.max_packet = trace.announced_max_packet(fin_tr);
+    let twin = run_case(&twin_case);
     let twin_ok = twin.conns.first().is_some_and(|c| c.1.is_ok());
     if !twin_ok {
         classes.push("configuration-can-never-connect");
